@@ -109,6 +109,7 @@ package exporter
 //@   ensures  setlen: !old(16 + theSet(set).length > 65535) ==> be16($wireLast, 18) == old(theSet(set).length)
 //@   ensures  ok:   err == nil ==> n == len($wireLast) && $wireN == old($wireN) + 1
 //@   ensures  dom:  ep.obsDomainID == old(ep.obsDomainID)
+//@   ensures  tplsame: tplBufSame(theSet(set))
 //@   modifies ep.seqNumber, $wireN, $wireLast, $wireLastN, $lastNow, theSet(set).records[*].(*baseRecord).buffer, theSet(set).records[*].(*dataRecord).encodeErr
 
 //@ pure tplRecsNN(s *set) bool = forall i in [0, len(s.records)): is(s.records[i], *templateRecord) ==>
@@ -145,6 +146,7 @@ package exporter
 //@                    && be16($wireLast, 18) == old(theSet(set).length) % 65536
 //@   ensures  dom:  ep.obsDomainID == old(ep.obsDomainID)
 //@   ensures  lock: !ep.templateMutex.held
+//@   ensures  tplbuf: tplBufSame(theSet(set))
 //@   replay session
 //@   ensures  hdrid: $wireN != old($wireN) && old(theSet(set).setType) == Data ==> old(hdrIdOK(ep, theSet(set)))
 //@   ensures  faithful: $wireN != old($wireN) && old(theSet(set).setType) == Data ==> old(freshEncodable(theSet(set)))
@@ -159,6 +161,36 @@ package exporter
 //@   loop 1 invariant tmsame: setType == Data ==> (forall k in [0, 65536): has(ep.templatesMap, k) == old(has(ep.templatesMap, k)) && ep.templatesMap[k] == old(ep.templatesMap[k]))
 //@   loop 1 invariant tplbuf: tplBufSame(theSet(set))
 //@   loop 1 invariant len:  theSet(set).length == 4 + sumRec(theSet(set).records, len(theSet(set).records))
+
+//@ // ---- UDP template refresh (C02/C08/C09 on the path that does not start at the application's SendSet) ----
+//@ // tmElemsNN: every stored template lists non-nil information elements (what updateTemplate stores: the elements of a sent template record)
+//@ pure tmElemsNN(ep *ExportingProcess) bool = forall k in [0, 65536): has(ep.templatesMap, k) ==> (forall j in [0, len(ep.templatesMap[k].elements)): ep.templatesMap[k].elements[j] != nil)
+//@ // refreshOK: a set as MakeTemplateSet builds it: one template record, everything SendSet requires of a set
+//@ pure refreshOK(x entities.Set) bool = setPre(x) && tplRecsNN(theSet(x)) && theSet(x).setType == Template && len(theSet(x).records) == 1
+//@     && is(theSet(x).records[0], *templateRecord) && be16(theSet(x).headerBuffer, 0) == 2
+//@     && theSet(x).length == 4 + len(theSet(x).records[0].(*templateRecord).buffer)
+//@     && fresh(theSet(x)) && fresh(theSet(x).headerBuffer) && fresh(theSet(x).records) && fresh(theSet(x).records[0].(*baseRecord))
+//@ func (ep *ExportingProcess) sendRefreshedTemplates() (err)
+//@   requires ep:   ep != nil && !isnil(ep.connToCollector) && ep.templatesMap != nil && !ep.templateMutex.held && !ep.sendJSONRecord
+//@   requires tm:   tmElemsNN(ep)
+//@   // template refreshes never advance the sequence number and never change the observation domain (C08)
+//@   ensures  seq:  err == nil ==> ep.seqNumber == old(ep.seqNumber)
+//@   ensures  dom:  ep.obsDomainID == old(ep.obsDomainID)
+//@   ensures  lock: err == nil ==> !ep.templateMutex.held
+//@   modifies ep.seqNumber, $wireN, $wireLast, $wireLastN, $lastNow, ep.templatesMap[*], ep.templateMutex.held
+//@   loop 1 invariant held: ep.templateMutex.held && ep.seqNumber == old(ep.seqNumber) && ep.obsDomainID == old(ep.obsDomainID) && ep.templatesMap == old(ep.templatesMap) && tmElemsNN(ep)
+//@   loop 1 invariant sets: fresh(templateSets) && (forall i in [0, len(templateSets)): refreshOK(templateSets[i]))
+//@   loop 1 invariant distinct: forall i in [0, len(templateSets)): forall j in [0, len(templateSets)): i != j ==> arr(theSet(templateSets[i]).headerBuffer) != arr(theSet(templateSets[j]).headerBuffer)
+//@   loop 2 invariant distinct: forall i in [0, len(templateSets)): forall j in [0, len(templateSets)): i != j ==> arr(theSet(templateSets[i]).headerBuffer) != arr(theSet(templateSets[j]).headerBuffer)
+//@   loop 2 invariant free: !ep.templateMutex.held && ep.seqNumber == old(ep.seqNumber) && ep.obsDomainID == old(ep.obsDomainID) && ep.templatesMap != nil
+//@   loop 2 invariant shape: forall i in [0, len(templateSets)): is(templateSets[i], *set) && theSet(templateSets[i]) != nil && fresh(theSet(templateSets[i])) && !theSet(templateSets[i]).isDecoding
+//@                    && theSet(templateSets[i]).setType == Template && len(theSet(templateSets[i]).records) == 1 && fresh(theSet(templateSets[i]).records)
+//@                    && is(theSet(templateSets[i]).records[0], *templateRecord) && fresh(theSet(templateSets[i]).records[0].(*baseRecord))
+//@                    && len(theSet(templateSets[i]).headerBuffer) == 4 && fresh(theSet(templateSets[i]).headerBuffer)
+//@   loop 2 invariant hdr:   forall i in [0, len(templateSets)): be16(theSet(templateSets[i]).headerBuffer, 0) == 2
+//@   loop 2 invariant len:   forall i in [0, len(templateSets)): theSet(templateSets[i]).length == 4 + len(theSet(templateSets[i]).records[0].(*templateRecord).buffer)
+//@   loop 2 invariant elems: forall i in [0, len(templateSets)): elemsNN(theSet(templateSets[i]).records[0].(*templateRecord).orderedElementList, len(theSet(templateSets[i]).records[0].(*templateRecord).orderedElementList))
+//@   loop 2 invariant cnt:  0 <= $i && $i <= len(templateSets)
 
 //@ func (ep *ExportingProcess) dataSetSanityCheck(set) (err)
 //@   requires ep:   ep != nil && !ep.templateMutex.held
